@@ -92,6 +92,18 @@ CLAIMED = {
             'Generated-input search over knot vectors with spacings 1e-4..1e4 (uniform, irregular, mixed by 6 decades), polylines, strictly convex quadratics in 2..6 dimensions. Exploration of the counted cases only.',
             'Trusted: reference spline in props/C19.cpp; the simplex convergence bound (1e-6 of the initial gap) is calibrated, see DESIGN.md section 7.',
             "DESIGN.md section 5, C19"),
+    "C16": ('stateful property-based testing (rapidcheck, forked ASan/UBSan children): write/read histories over model files checked against a map path -> model last written; round-trip and prediction-equality oracles',
+            'Generated histories of 1..5 Write*/Read* steps over 1..2 files and 1..3 PCA/PLS/CPCA models (magnitudes 1e-9..1e9, empty optional fields): every persisted field read back with the dimensions and values of the model last written, predictions equal, in-memory model untouched by writing. Exploration of the counted histories only.',
+            'Trusted: system SQLite; the list of persisted fields is taken from the Write* functions.',
+            "DESIGN.md section 5, C16"),
+    "C18": ('property-based testing (rapidcheck, forked children) on exactly representable degenerate data with a deterministic iteration ceiling (hook H3) as the non-termination oracle; identities on the components up to the numerical rank',
+            'Generated integer/dyadic matrices of exact rank 0..min(shape), duplicated rows, constant columns/blocks/responses, more components than the rank, k-means with duplicate points, one-group cross-validation, simplex on constant / unbounded objectives: every call returns below the iteration ceiling, defined components are finite and satisfy the regular identities, variance beyond the rank is 0 and never NaN. Exploration of the counted cases only.',
+            "Trusted: 'bounded' means below 200000 NIPALS iterations / 5000 k-means++ passes (two orders above the slowest genuine case observed); oracle SVD for the numerical rank.",
+            "DESIGN.md section 5, C18"),
+    "C20": ("Hypothesis (python3-vt) differential between the repository's Python package and the same calls made from a C helper compiled against the current headers; live-object field reads through ctypes _fields_ vs the C view; compiled sizeof/offsetof table of the 10 mirrored structures",
+            "Generated containers, PCA/PLS/CPCA fits, selections and splines through the package wrappers: every returned value and every model field equals what C sees; layout (size, offsets, member kinds, order) of all mirrored structures equals the compiler's. Decides the behaviourally visible part of the property; a parameter whose declared integer width differs without effect under the x86-64 ABI (lsci.PCA scaling: c_size_t vs int) is not detectable by generated inputs and is not claimed.",
+            "Trusted: gcc's layout of the current headers; hypothesis 6.168; the worker runs in a subprocess so a crash of the bindings is an observed outcome.",
+            "DESIGN.md section 5, C20"),
 }
 
 PENDING_REASON = "harness not built yet in this round (work in progress; see DESIGN.md section 5 for the planned check)"
@@ -116,7 +128,7 @@ def main():
             "thorough_cmd": "./check %s --tier thorough" % pid,
             "evidence_file": "/verif/evidence/%s.json" % pid,
             "replay_cmd_template": "./check %s --replay {path}" % pid,
-            "engine": "rapidcheck+fork",
+            "engine": "hypothesis+ctypes" if pid == "C20" else "rapidcheck+fork",
             "level_claimed": {"category": "exploration", "text": text, "design_ref": ref},
             "level_note": note,
             "technique": tech,
@@ -137,7 +149,9 @@ def main():
             "add_only": True,
         },
         "engines": [
-            {"name": "rapidcheck+fork", "path": "/verif/engine", "serves_properties": sorted(CLAIMED),
+            {"name": "hypothesis+ctypes", "path": "/verif/props/c20", "serves_properties": ["C20"],
+             "kind_free_text": "Hypothesis strategies (python3-vt) driving the repository's Python package against libverifdump.so (C helper built from the current headers)"},
+            {"name": "rapidcheck+fork", "path": "/verif/engine", "serves_properties": sorted(p for p in CLAIMED if p != "C20"),
              "kind_free_text": "rapidcheck generators/shrinking (engine_rc.cpp); each case runs in a forked child of an "
                                "ASan+UBSan build of /repo's working tree; replay files are plain text cases"},
         ],
